@@ -6,7 +6,7 @@
 //! nothing is taken from allsorts' `lut.rs`.
 //!
 //! @funcs woff2::PackedU16::read, woff2::U32Base128::read, woff2::TableDirectoryEntry::read_dep, woff2::TransformedGlyphTable::read, Woff2GlyfTable::read_dep, Woff2GlyfTable::decode_simple_glyph, compute_end_pts_of_contours, decode_coordinates, woff2::lut::COORD_LUT, XYTriplet::{dx,dy}, BitSlice::get, Woff2HmtxTable::read_dep, SimpleGlyph::bounding_box
-//! @out brotli decompression, Woff2Font::read, collection directory, the eager table provider (HashMap), loca reconstruction, composite glyph records, glyphs with more than 2 points or more than 1 contour (2 contours in the thorough tier), more than 2 glyphs
+//! @out brotli decompression, Woff2Font::read, collection directory, the eager table provider (HashMap), loca reconstruction, composite glyph records, glyphs with more than 2 points or more than 1 contour (2 contours in the thorough tier), more than 2 glyphs (32 EMPTY glyphs with a fully concrete table already give no answer in 10 min, so the bbox-bitmap length formula is only exercised for 1 glyph)
 
 use crate::util::*;
 use allsorts::binary::read::{ReadArrayCow, ReadScope};
